@@ -16,7 +16,7 @@ LEVEL = 'exploration'
 RULE = ('scope trees = every list of up to N binding/reading constructs (assign, augassign, read, del, global, nonlocal, '
         'import, import-as, with-as, except-as, for target, attribute/subscript target, slice bounds, tuple index, slice store, f-string format spec, walrus, annotated assignment, '
         'comprehension, nested def with each parameter kind / default / annotation / decorator, lambda, class) over the names '
-        '{a, b}, nested to depth 3; programs that CPython rejects are skipped; oracle = symtable per function scope and the '
+        '{a, b}, nested to depth 3 (slices / tuple indices / format specs / keyword-only defaults only in lists of up to 3); programs that CPython rejects are skipped; oracle = symtable per function scope and the '
         'bytecode of each statement line; distinct_nontrivial = distinct accepted programs with a nested scope')
 ASSUMPTIONS = ['comprehension targets and except-clause names are excluded (property text)',
                'free variables compared on the closure part only: names CPython reports free must be in read - bound, and '
@@ -66,9 +66,24 @@ def blocks(n, d):
         yield (s,) + rest
 
 
+ROUND2_KINDS = ('slice', 'tupidx', 'slicestore', 'fspec')
+
+
+def _uses_round2(b):
+  for s in b:
+    if s[0] in ROUND2_KINDS or (s[0] == 'def' and s[1] == 'kwdefault'):
+      return True
+    if s[0] in ('def', 'class', 'if') and _uses_round2(s[-1]):
+      return True
+  return False
+
+
 def items(tier, seed):
   for n in range(1, MAXN[tier] + 1):
     for b in blocks(n, 3):
+      # the constructs added later (slices, tuple indices, format specs, keyword-only defaults) are enumerated up to 3 nodes
+      if n >= 4 and _uses_round2(b):
+        continue
       yield b
 
 
